@@ -84,6 +84,8 @@ type Expression interface {
 }
 
 func (q *Query) populateGroupBy(columns []string, sch *schema) error {
+	q.groupByFields = nil
+
 	for _, colName := range columns {
 		col, ok := sch.Columns[colName]
 		if !ok {
